@@ -46,6 +46,44 @@ Q3: !protocol
     d: E2
 """
 
+# unchanged aliases of named types, used in nested positions of protocol steps that did change between the versions: the
+# evolution analysis has several candidate partners for each of them (the alias itself and its target)
+ALIASES = """
+RA: !record
+  fields:
+    x: int
+RB: !record
+  fields:
+    y: string
+EA: !enum
+  values: [p, q]
+AL1: RA
+AL2: RA
+AL3: EA
+AL4: RB
+AL5: EA
+AL6: RB
+AL7: RA
+AL8: AL1
+Frame: !record
+  fields:
+    f1: AL1
+    f2: AL2*
+    f3: AL3
+    f4: AL4?
+    f5: AL5*2
+    f6: string->AL6
+    f7: [AL7, int]
+    f8: AL8
+PV: !protocol
+  sequence:
+    frame: Frame
+    frames: !stream
+      items: Frame
+    more: AL2*
+"""
+ALIASES_NEW = ALIASES.replace("    frame: Frame\n", "    frame: Frame?\n").replace("      items: Frame\n", "      items: [Frame, int]\n")
+
 # invalid additions: several diagnostics, some at one position, in one run
 BAD_ENUM = """
 Dup: !enum
@@ -103,6 +141,7 @@ def main():
         ("valid-rich-validate", "validate", lambda r: proj(r, RICH)),
         ("removed-protocols-and-types", "generate", lambda r: proj(r, "", v0_extra=V0_MORE)),
         ("changed-definitions", "generate", lambda r: proj(r, RICH.replace("t2: T2*", "t2: T2*\n    t3: T1?").replace("values: [a, b, c]", "values: [a, b, c]").replace("[int, string, float]", "[int, string, float, bool]"), v0_extra=V0_MORE)),
+        ("aliases-in-changed-steps", "generate", lambda r: proj(r, ALIASES_NEW, v0_extra=ALIASES)),
         ("invalid-many-errors", "validate", lambda r: proj(r, RICH + BAD_ENUM)),
         ("invalid-many-errors-generate", "generate", lambda r: proj(r, BAD_ENUM)),
         ("invalid-import-and-main", "validate", lambda r: proj(r, BAD_ENUM, "import2", "semantic")),
@@ -141,6 +180,8 @@ def main():
         c.cov["traces_validated_against_impl"] += len(runs) + (1 if idem else 0)
         c.count(name, nontrivial=True)
         first = runs[0]
+        if name.startswith(("valid-", "aliases-")) and first["rc"] != 0:
+            raise Inconclusive("scenario %s is meant to be a valid package but `yardl %s` rejects it: %s" % (name, cmd, first["stderr"][-300:]))
         if any(r["rc"] not in (0, 1) for r in runs):
             c.violation("C12:%s:crash" % name, "exit status outside {0,1}: %s" % sorted(set(r["rc"] for r in runs)), {"scenario": name, "stderr": runs[0]["stderr"][-500:]})
             continue
@@ -218,7 +259,7 @@ def main():
     c.assumptions += ["each run is a fresh process (Go randomises map iteration per process)", "absolute paths in diagnostics are normalised"]
     c.finish(rule="Determinism.tla: TLC explores every collection order of diagnostics sharing a position and checks that the modelled sort makes "
                   "the printed order unique; binding: %d fresh-process runs of validate/generate on %d packages built to populate the tool's maps "
-                  "(union arities, enums with duplicate values, many removed/changed definitions across versions, errors in several files) must agree "
+                  "(union arities, enums with duplicate values, many removed/changed definitions across versions, unchanged aliases inside changed steps, errors in several files) must agree "
                   "byte for byte; an unchanged package regenerated in place rewrites nothing; a package edited and regenerated in place equals its "
                   "fresh generation; distinct = scenarios" % (nruns, len(scenarios)))
 
